@@ -434,6 +434,12 @@ Operate(vs0, op, m, cnt, reg, keys) ==
                   v2 == IF ln THEN SetText(vs, mapped, r1, r2 + 1)
                         ELSE SetText(vs, USub(FL(vs, r1), 0, o1) \o mapped \o USub(FL(vs, r2), o2, -1), r1, r2 + 1)
               IN [v2 EXCEPT !.row = r2, !.off = IF ln THEN Indents(FL(v2, r2)) ELSE o2, !.ok = TRUE]
+         (* ! (vi_pipe): the whole lines r1..r2 go through the filter typed at the prompt and are replaced by its output in one
+            splice; after { or } a blank last line stays out.  The scripts' filter is "tr a-z A-Z".  The cursor is left alone. *)
+         [] op = "!" ->
+              LET r2p == IF m.k \in {"{", "}"} /\ HasLn(vs, r2) /\ FL(vs, r2)[1] = NL /\ r1 < r2 THEN r2 - 1 ELSE r2
+                  v2 == SetText(vs, CaseMap(RegionText(vs, r1, 0, r2p, -1), "gU"), r1, r2p + 1)
+              IN [v2 EXCEPT !.ok = TRUE]
          [] op \in {"<", ">"} ->
               LET RECURSIVE Sh(_, _)
                   Sh(v, i) == IF i > r2 THEN v
@@ -598,12 +604,13 @@ MotKeys(m) ==
 CntKeys(n) == IF n = 0 THEN <<>> ELSE NumStr(n)
 RegKeys(r) == IF r = 0 THEN <<>> ELSE <<34, r>>
 OpKeys(op) == CASE op = "d" -> <<100>> [] op = "c" -> <<99>> [] op = "y" -> <<121>> [] op = "<" -> <<60>> [] op = ">" -> <<62>>
-                [] op = "g~" -> <<103, 126>> [] op = "gu" -> <<103, 117>> [] op = "gU" -> <<103, 85>>
+                [] op = "g~" -> <<103, 126>> [] op = "gu" -> <<103, 117>> [] op = "gU" -> <<103, 85>> [] op = "!" -> <<33>>
+FilterKeys == <<116, 114, 32, 97, 45, 122, 32, 65, 45, 90, 10>>        \* "tr a-z A-Z" and Enter, typed at the prompt of !
 OpLast(op) == OpKeys(op)[Len(OpKeys(op))]
 Keys(c) ==
     CASE c.k = "mot" -> CntKeys(c.c1) \o MotKeys(c.m)
       [] c.k = "op"  -> RegKeys(c.reg) \o CntKeys(c.c1) \o OpKeys(c.op) \o CntKeys(c.c2)
-                        \o (IF c.m.k = "dbl" THEN <<OpLast(c.op)>> ELSE MotKeys(c.m)) \o (IF c.op = "c" THEN c.keys \o <<27>> ELSE <<>>)
+                        \o (IF c.m.k = "dbl" THEN <<OpLast(c.op)>> ELSE MotKeys(c.m)) \o (IF c.op = "c" THEN c.keys \o <<27>> ELSE IF c.op = "!" THEN FilterKeys ELSE <<>>)
       [] c.k \in {"x", "X", "D", "Y", "~"} -> RegKeys(c.reg) \o CntKeys(c.c1) \o
                         <<(CASE c.k = "x" -> 120 [] c.k = "X" -> 88 [] c.k = "D" -> 68 [] c.k = "Y" -> 89 [] c.k = "~" -> 126)>>
       [] c.k \in {"C", "s", "S"} -> RegKeys(c.reg) \o CntKeys(c.c1) \o <<(CASE c.k = "C" -> 67 [] c.k = "s" -> 115 [] c.k = "S" -> 83)>> \o c.keys \o <<27>>
